@@ -106,6 +106,27 @@ def gen_cases(rng, tier):
         for _ in range(n):
             pts += [f2b(round(rng.uniform(1, lim(sxv)), 2)), f2b(round(rng.uniform(1, lim(syv)), 2))]
         cases.append(("c18", [6] + t + [i % 2] + pts))
+    # fn 10: dashed strokes of curves under magnification (the dasher's curve measuring depends on the resolution scale too)
+    for i in range(40 if tier == "quick" else 500):
+        sc = rng.choice([8.0, 20.0, 30.0, 1.0, 0.5])
+        ang = rng.choice([0.0, 0.0, rng.uniform(0, 6.28)])
+        t = [f2b(sc * math.cos(ang)), f2b(-sc * math.sin(ang)), f2b(sc * math.sin(ang)), f2b(sc * math.cos(ang)), f2b(48.0 if ang else 4.0), f2b(48.0 if ang else 4.0)]
+        ext = 88.0 / sc if not ang else 40.0 / sc
+        P = lambda: ((rng.uniform(-1, 1) if ang else rng.uniform(0, 1)) * ext, (rng.uniform(-1, 1) if ang else rng.uniform(0, 1)) * ext)
+        p0 = P()
+        pts = [f2b(p0[0]), f2b(p0[1])]
+        for _ in range(rng.randint(1, 2)):
+            for _ in range(3):
+                q = P(); pts += [f2b(q[0]), f2b(q[1])]
+        width = rng.choice([1.5, 3.0, 5.0]) / sc
+        cases.append(("c18", [10] + t + [f2b(width), i % 2, f2b(rng.choice([6.0, 10.0, 3.0]) / sc), f2b(rng.choice([4.0, 7.0]) / sc)] + pts))
+    # pre_concat / post_concat of matrices with an exact unit diagonal (shears and translations): nothing may be dropped
+    for i in range(60 if tier == "quick" else 600):
+        def unit():
+            k = rng.random()
+            return [f2b(1.0), f2b(0.0 if k < 0.3 else rng.choice([0.5, -0.25, 2.0, rng.uniform(-2, 2)])), f2b(0.0 if 0.2 < k < 0.5 else rng.choice([0.25, -1.5, rng.uniform(-2, 2)])),
+                    f2b(1.0), f2b(rng.choice([0.0, 10.0, -3.5])), f2b(rng.choice([0.0, 20.0, 7.25]))]
+        cases.append(("c18", [2] + unit() + unit()))
     # fn 7 under shears and squeezes in which ONE row of the matrix is much longer than the other (y-shear, x-shear, thin
     # squeeze): the stroker's precision must follow the longer row; geometry placed so that the picture stays in 64 x 64
     for i in range(60 if tier == "quick" else 800):
@@ -261,6 +282,15 @@ def oracle(suite, args, out):
         if o and o[0] > 0:
             return "stroke_path with the transform differs from filling path.stroke(stroke, resolution_scale(ts)) under it in %d bytes" % o[0]
         return None
+    if k == 10:
+        sx, kx, ky, sy = [b2f(v) for v in args[1:5]]
+        w = b2f(args[7])
+        # thinner than a pixel in device space with anti-aliasing: drawn as a hairline (see fn 7)
+        if args[8] and max(abs(sx), abs(kx), abs(ky), abs(sy)) * w <= 1.1:
+            return None
+        if o and o[0] > 0:
+            return "a dashed stroke_path with the transform differs from filling path.dash(d, rs).stroke(s, rs) under it in %d bytes" % o[0]
+        return None
     if k == 6:
         if o and o[0] > 0:
             return "drawing with the transform differs from drawing the pre-transformed path in %d bytes" % o[0]
@@ -289,7 +319,7 @@ def relation(suite, args, mo, io):
 def nontrivial_tag(suite, args, out):
     if args[0] == 1 and out not in ("-1",):
         return "invert:some"
-    if args[0] in (6, 7, 8, 9):
+    if args[0] in (6, 7, 8, 9, 10):
         return "draw%d" % args[0]
     if args[0] in (2, 3):
         return "fn%d" % args[0]
